@@ -34,6 +34,7 @@ from .runner import CaseResult, Part, exc_sig, REPO_SRC
 from .hollow import HollowSession
 from . import c14_hollow as ch
 from . import c14_launch
+from . import c14_batch
 
 import traceback
 
@@ -239,7 +240,8 @@ def parts(tier):
             Part('cause_orders_enum', enum=cause_enum),
             Part('notify_histories', notify_cases(), quick=1000, thorough=8000),
             Part('cause_histories',  cause_cases(),  quick=500,  thorough=6000),
-            Part('launch_cancel',    c14_launch.cases(), quick=400, thorough=4000)]
+            Part('launch_cancel',    c14_launch.cases(), quick=400, thorough=4000),
+            Part('batch_launchers',  c14_batch.cases(),  quick=400, thorough=4000)]
 
 
 # ------------------------------------------------------------------------------
@@ -247,6 +249,8 @@ def normalise(case):
     """repair candidates of the generic minimiser (it deletes list chunks)"""
     if not isinstance(case, dict) or 'kind' not in case:
         return None
+    if case['kind'] == 'batch_launcher':
+        return c14_batch.normalise(case)
     if case['kind'] == 'notify':
         ops = []
         for op in case.get('ops') or []:
@@ -292,6 +296,8 @@ def run_case(case):
             return run_causes(case)
         if kind == 'launch_cancel':
             return c14_launch.run(case)
+        if kind == 'batch_launcher':
+            return c14_batch.run(case)
         return run_notify(case)
     finally:
         # BaseComponent.__init__ registers every component in a module level
